@@ -3240,7 +3240,7 @@ class XonshParser(Parser):
         return None
 
     def single_subscript_attribute_target(self) -> Any | None:
-        # single_subscript_attribute_target: t_primary '.' NAME !t_lookahead | t_primary '[' slices ']' !t_lookahead
+        # single_subscript_attribute_target: t_primary '.' NAME !t_lookahead | t_primary '[' slices ']' !t_lookahead | '$' NAME | '${' slices '}'
         mark = self._mark()
         _lnum, _col = self._tokenizer.peek().start
         if (
@@ -3259,6 +3259,12 @@ class XonshParser(Parser):
             and (self.negative_lookahead(self.t_lookahead))
         ):
             return ast.Subscript(value=a, slice=b, ctx=Store, **self.span(_lnum, _col))
+        self._reset(mark)
+        if (self.expect("$")) and (a := self.name()):
+            return self.expand_env_name(a, ctx=Store, **self.span(_lnum, _col))
+        self._reset(mark)
+        if (self.expect("${")) and (a := self.slices()) and (self.expect("}")):
+            return self.expand_env_expr(a, ctx=Store, **self.span(_lnum, _col))
         self._reset(mark)
         return None
 
